@@ -314,7 +314,7 @@ Inductive disp :=
 | Pending (tok : N).    (* in-record created or refreshed in the entry with this token *)
 
 Record result := { r_st : fw; r_outs : list out; r_ok : bool (* choices admissible *); r_disp : disp;
-                   r_panic : bool (* the code would index out of range: GetFWThread(len) *) }.
+                   r_panic : bool (* an unchecked index/slice of the code would be out of range (no such site is left) *) }.
 
 Definition res (s : fw) (o : list out) (ok : bool) (d : disp) : result :=
   {| r_st := s; r_outs := o; r_ok := ok; r_disp := d; r_panic := false |}.
@@ -550,8 +550,8 @@ Definition step_data_thread (s : fw) (now : N) (d : data) (t : option N) : resul
   end.
 
 (* linkServiceBase.dispatchData in front of the thread (fw/face/link-service.go):
-   - a 6-byte token selects the thread by its first two bytes; dispatch.GetFWThread accepts id <= len(threads), so
-     id = len indexes out of range;
+   - a 6-byte token selects the thread by its first two bytes (dispatch.GetFWThread: nil beyond the last thread,
+     then the Data is dropped);
    - otherwise Data from a local face goes to the threads hashed from every prefix of its name (length 0..len),
      Data from a non-local face to the thread hashed from the full name.
    With one thread every hash selects thread 0 (thread selection for more threads is Dispatch.v's subject). *)
@@ -559,7 +559,6 @@ Definition step_data (s : fw) (now : N) (d : data) : result :=
   match data_token (d_tok d) with
   | Some (th, tk) =>
     if th =? tid s then step_data_thread s now d (Some tk)
-    else if th =? nthreads s then {| r_st := s; r_outs := []; r_ok := true; r_disp := DNone; r_panic := true |}
     else res s [] true DNone
   | None => step_data_thread s now d None
   end.
